@@ -32,10 +32,14 @@ def d3_scale_bilinear(domain, _range, uninterpolate, interpolate):
 
 
 def d3_uninterpolateNumber(a, b):
+    if b == a:
+        return lambda x: 0
     return lambda x: (x - a) / (b - a)
 
 
 def d3_uninterpolateClamp(a, b):
+    if b == a:
+        return lambda x: 0
     return lambda x: max(0, min(1, (x - a) / (b - a)))
 
 
@@ -128,7 +132,7 @@ def d3_scale_linearTicks(domain, m):
 def d3_scale_linearTickFormat(domain, m, fmt=None):
     therange = d3_scale_linearTickRange(domain, m)
     # format not None is not implemented
-    decimals = max(0, d3_scale_linearPrecision(therange[2]))
+    decimals = max(0, d3_scale_linearPrecision(therange[2])) if therange[2] else 0
     fmt = "." + str(decimals) + "f"
     fmtstr = "{:%s}" % fmt
     return lambda x: fmtstr.format(x)
